@@ -4,13 +4,13 @@ from core import *
 HINV = ["Ledger", "OnePlace"]
 
 
-def hconsts(cbs=2, enq=3, inv=1, ops=(), cbshapes=(1, 2, 3, 4, 5, 6, 7), argshapes=(1, 2, 3, 4, 5, 6, 7), predshapes=(2, 3, 4, 5, 6), counts=()):
+def hconsts(cbs=2, enq=3, inv=1, ops=(), cbshapes=(1, 2, 3, 4, 5, 6, 7), argshapes=(1, 2, 3, 4, 5, 6, 7), predshapes=(2, 3, 4, 5, 6), counts=(), filters=0, fprotos=()):
     return {"MaxCbs": cbs, "MaxEnq": enq, "MaxInv": inv, "Ops": set(ops), "CbShapes": set(cbshapes), "ArgShapes": set(argshapes), "PredShapes": set(predshapes),
-            "Counts": set(counts)}
+            "Counts": set(counts), "MaxFilters": filters, "FilterProtos": set(fprotos)}
 
 
-def hworld(name, kind, threading=1, fill="0xA5", fraction=1.0, compiler="g++", std="c++11", opt="-O1", only_tags=None):
-    w = {"name": name, "source": "het_interp.cpp", "defines": ["W_KIND=%d" % kind, "W_THREADING=%d" % threading, "W_FILL=%s" % fill],
+def hworld(name, kind, threading=1, fill="0xA5", fraction=1.0, compiler="g++", std="c++11", opt="-O1", only_tags=None, hfilter=0):
+    w = {"name": name, "source": "het_interp.cpp", "defines": ["W_KIND=%d" % kind, "W_THREADING=%d" % threading, "W_FILL=%s" % fill] + (["W_HFILTER=1"] if hfilter else []),
          "fraction": fraction, "compiler": compiler, "std": std, "opt": opt, "sanitize": True}
     if only_tags:
         w["only_tags"] = only_tags
@@ -81,6 +81,25 @@ def c16h(tier, seed):
                     "that are added and removed; non-trivial = the script uses processIf or insert",
             "assumptions": ASSUME + ["ConditionalRemover's wrapper is callable with any argument list, so on a heterogeneous target it binds to the first prototype: only "
                                      "callbacks without arguments can be registered through it (a library limitation, not judged)"]}
+
+
+def c12h(tier, seed):
+    """MixinHeterFilter on a heterogeneous dispatcher with scripted filter behaviour (the part of C12 that names heterogeneous dispatchers)."""
+    quick = tier == "quick"
+    m = {"module": "HetGen", "tag": "heter-filters", "invariants": HINV,
+         "constants": hconsts(cbs=1 if quick else 2, enq=0, inv=2 if quick else 3, ops={"al", "rl", "iv", "af", "rf"}, cbshapes=(2, 5) if quick else (1, 2, 3, 5),
+                              argshapes=(2, 6) if quick else (1, 2, 4, 6), predshapes=(), filters=2 if quick else 3, fprotos=(2, 5) if quick else (1, 2, 3, 5))}
+    worlds = [hworld("hf_disp_single", 1, threading=0, hfilter=1), hworld("hf_disp_multi_ff", 1, threading=1, hfilter=1, fraction=0.3, fill="0xFF")]
+    if not quick:
+        worlds.append(hworld("hf_disp_clang20", 1, threading=1, hfilter=1, fraction=0.3, compiler="clang++", std="c++20", opt="-O2"))
+    return {"interp": "harness/het_interp.cpp", "trace_module": "TraceHet", "models": [m], "worlds": worlds,
+            "rule": "every transition of the bounded HetGen reference model with MixinHeterFilter filters of several prototypes and three behaviours (pass; pass and "
+                    "rewrite an int argument; reject odd values), added and removed between dispatches of several argument shapes, next to listeners that are added "
+                    "and removed; TraceHet demands: only the filters of the dispatched prototype run, in the order added, each sees the value left by the ones "
+                    "before it, listeners see the final value, the first rejection ends the dispatch, removed filters never run; non-trivial = the script uses "
+                    "processIf or insert",
+            "assumptions": ASSUME + ["MixinHeterFilter looks its filter list up by the exact lvalue argument types, so only exactly typed argument lists are dispatched in "
+                                     "these worlds; it cannot be instantiated over HeterEventQueue (library limitation)"]}
 
 
 PLANS = {"C14": c14}
